@@ -2,6 +2,7 @@ package checks
 
 import (
 	"fmt"
+	"math/rand"
 	"strings"
 
 	"github.com/uhn/ggql/pkg/ggql"
@@ -128,6 +129,12 @@ func petsRequests(c *run.Ctx, pfx string, m int) {
 		}
 		for k := 0; k < 1+i%3; k++ {
 			dc := gen.Doc(r, ms, gen.DocOpts{Frags: true, Aliases: true, Abstract: true, Depth: 2 + r.Intn(3), MaxOps: 1, DupKeys: (i+k)%2 == 0})
+			if k == i%3 && i%2 == 1 {
+				// one response key naming DIFFERENT fields of the same type behind type conditions that exclude each other:
+				// a valid request (only one of them can apply to a value), each value answers with its own field
+				dc = petsSharedAlias(r)
+				c.Count("documents_sharing_an_alias_across_exclusive_type_conditions", 1)
+			}
 			text := dc.Doc.Print(model.LayoutN(i + k))
 			exp := ref.Execute(ms, dc.Doc, dc.OpName, dc.Vars, g, nil, ref.Flags{})
 			out := &Outcome{}
@@ -154,6 +161,44 @@ func petsRequests(c *run.Ctx, pfx string, m int) {
 			}
 		}
 	}
+}
+
+// petsSharedAlias writes { <pets field> { ... on Lion { label: roar } ... on Cat { label: name num: lives } ... on Hound { num: pack } } }
+// in varying arrangement (inline fragments or named fragments, two to four conditions, an alias or the plain name of one of
+// the fields as the shared key).
+func petsSharedAlias(r *rand.Rand) *gen.DocCase {
+	strF := map[string][]string{"Lion": {"roar", "name"}, "Cat": {"name"}, "Dog": {"name"}, "Hound": {"name"}}
+	numF := map[string]string{"Cat": "lives", "Hound": "pack"}
+	types := []string{"Lion", "Cat", "Dog", "Hound"}
+	r.Shuffle(len(types), func(a, b int) { types[a], types[b] = types[b], types[a] })
+	types = types[:2+r.Intn(3)]
+	key := []string{"label", "roar", "name"}[r.Intn(3)]
+	d := &model.Doc{}
+	var sels []model.Sel
+	for ti, t := range types {
+		fs := strF[t]
+		f := &model.Field{Alias: key, Name: fs[r.Intn(len(fs))]}
+		if f.Alias == f.Name {
+			f.Alias = ""
+		}
+		in := []model.Sel{f}
+		if nf := numF[t]; nf != "" {
+			in = append(in, &model.Field{Alias: "num", Name: nf})
+		}
+		if r.Intn(3) == 0 {
+			in = append(in, &model.Field{Name: "__typename"})
+		}
+		if r.Intn(3) == 0 {
+			fn := fmt.Sprintf("F%d", ti)
+			d.Frags = append(d.Frags, &model.FragDef{Name: fn, Cond: t, Sels: in})
+			sels = append(sels, &model.Spread{Name: fn})
+		} else {
+			sels = append(sels, &model.Inline{Cond: t, Sels: in})
+		}
+	}
+	top := []string{"pets", "animals", "pet", "animal", "me", "withMe", "typed"}[r.Intn(7)]
+	d.Ops = []*model.Op{{Kind: "query", Shorthand: true, Sels: []model.Sel{&model.Field{Name: top, Sels: sels}}}}
+	return &gen.DocCase{Doc: d, Feats: map[string]bool{}}
 }
 
 // ---------------------------------------------------------------- events of abstract-typed subscription fields
